@@ -393,3 +393,88 @@ Theorem C20_entry_list_on_the_rule_slice_refuted :
   logged_of (eworld_run entries_fresh ew_sched ew_demo) 2 = [0; 1; 2; 4]%nat.
 Proof. exact entry_list_on_the_rule_slice_refuted. Qed.
 Print Assumptions C20_entry_list_on_the_rule_slice_refuted.
+
+(* ============================ the scan, as one theorem over all strings ===================== *)
+
+(* For EVERY format string and every substitution function (every request): the format is, from
+   left to right, literal_1 placeholder_1 ... literal_n placeholder_n tail (each placeholder a
+   "{" ... "}" stretch of the format, the literals possibly empty: adjacent placeholders, a
+   placeholder at position 0), and Replace returns exactly
+     unescaped literal_1 ++ VALUE_1 ++ ... ++ unescaped literal_n ++ VALUE_n ++ unescaped tail
+   where VALUE_i = gs (unescaped placeholder_i) stands in the output once, at its place, as it
+   is: gs is arbitrary, so a value that begins or ends with a backslash, contains braces,
+   escapes or whole placeholders is not trimmed, unescaped or scanned (only the literal text of
+   the FORMAT loses its brace escapes and, a quirk of the code that the model reproduces, one
+   leading backslash per literal); the tail holds no further complete unescaped placeholder.  The decomposition is the
+   LEFTMOST one (leftmost_piece): every opening brace inside a literal is escaped (preceded by a
+   backslash), and the closing brace that ends a placeholder is the first unescaped one after its
+   opening brace - no placeholder occurrence is skipped, none is read twice; and the tail
+   (unpaired_tail) has either no unescaped opening brace at all or a last one after which no
+   unescaped closing brace follows. *)
+Theorem C20_replace_scan_decomposition :
+  forall (gs : bytes -> bytes) (fmt : bytes),
+  exists ps tail,
+    fmt = pieces_cat ps ++ tail /\ Forall leftmost_piece ps /\
+    (has_brace fmt = true -> scan_step tail = Ok None) /\ unpaired_tail tail /\
+    template fmt = Ok (pieces_template ps tail) /\
+    expand gs fmt = Ok (pieces_out gs ps tail).
+Proof. exact replace_scan_decomposition. Qed.
+Print Assumptions C20_replace_scan_decomposition.
+
+(* a placeholder at position 0 directly followed by another, values beginning / ending with a
+   backslash and containing braces, escapes and placeholders: inserted as they are, once each *)
+Example C20_replace_scan_decomposition_witness :
+  let gs := fun k => if beq k (bs "{a}") then bs "\{b}\" else if beq k (bs "{b}") then bs "\\}{a}{" else bs "-" in
+  expand gs (bs "{a}{b}{a}") = Ok (bs "\{b}\\\}{a}{\{b}\") /\
+  expand gs (bs "{b}x\{{a}\}{c}") = Ok (bs "\\}{a}{x{\{b}\}-").
+Proof. vm_compute. split; reflexivity. Qed.
+
+(* ============================ several log directives per site =============================== *)
+
+(* logParse over the list of `log` directives of a site (arguments + block lines, as the dispenser
+   hands them over): parsing succeeds iff every directive parses when read ALONE, and then the
+   i-th entry - scope, output file, format, except list - is exactly what the i-th directive means
+   read alone: no except path, scope or format is carried from one directive's parse to the next. *)
+Theorem C20_each_log_directive_is_its_own :
+  forall ds es, log_parse ds = Some es <-> map parse_dir ds = map Some es.
+Proof. exact log_parse_each_its_own. Qed.
+Print Assumptions C20_each_log_directive_is_its_own.
+
+Theorem C20_log_directive_entry :
+  forall ds es i d, log_parse ds = Some es -> nth_error ds i = Some d ->
+  exists e, nth_error es i = Some e /\ parse_dir d = Some e.
+Proof. exact log_parse_nth. Qed.
+Print Assumptions C20_log_directive_entry.
+
+(* both orders of the file (and any concatenation) give the same entries *)
+Theorem C20_log_directives_order :
+  forall ds es, log_parse ds = Some es -> log_parse (rev ds) = Some (rev es).
+Proof. exact log_parse_rev. Qed.
+Print Assumptions C20_log_directives_order.
+
+Theorem C20_log_directives_concat :
+  forall ds1 ds2 es1 es2,
+  log_parse ds1 = Some es1 -> log_parse ds2 = Some es2 -> log_parse (ds1 ++ ds2) = Some (es1 ++ es2).
+Proof. exact log_parse_app. Qed.
+Print Assumptions C20_log_directives_concat.
+
+(* ... so that a request gets exactly one line per configured log iff it is inside the scope
+   written in that directive and not excepted by the except list written in that directive's
+   own block - for every file of raw directives, every request and handler outcome *)
+Theorem C20_one_line_per_raw_directive :
+  forall c cs tbl (haserr hdrw : bool) ds es path ops ret,
+  log_parse ds = Some es ->
+  counts_ok cs (map dir_of es) 0 path (snd (site_serve c cs tbl haserr hdrw (map dir_of es) path ops ret)) = true /\
+  map (fun d => option_map dir_of (parse_dir d)) ds = map (fun e => Some (dir_of e)) es.
+Proof. exact raw_one_line_per_log. Qed.
+Print Assumptions C20_one_line_per_raw_directive.
+
+(* hypotheses reachable; and the variant of the loop whose block variables are declared BEFORE
+   the loop (a seeded-change class) is a different function: the second directive inherits the
+   first one's except list and format *)
+Example C20_each_log_directive_is_its_own_nonvacuous :
+  exists ds es es', log_parse ds = Some es /\ log_parse (rev ds) = Some (rev es) /\
+    log_parse_carried ds = Some es' /\
+    map pe_except es = [[bs "/a/x"]; []] /\ map pe_except es' = [[bs "/a/x"]; [bs "/a/x"]] /\
+    map pe_format es = [bs "{status}"; lit_default_format] /\ map pe_format es' = [bs "{status}"; bs "{status}"].
+Proof. exact log_parse_carried_differs. Qed.
